@@ -240,7 +240,14 @@ static void check_seq(Scn const &sc, int start, std::vector<int> const &ops, Res
   }
   if (!a.problem.empty()) r.violation(P + a.problem.substr(0, a.problem.find(':')), det + ",\"problem\":\"" + jesc(a.problem) + "\"}");
   if (!a.listp.empty()) r.violation(P + "list-disagrees-with-internal-lists", det + ",\"problem\":\"" + jesc(a.listp) + "\"}");
-  if (!a.stale_inactive.empty()) r.violation("C20:variable-left-inactive-after-its-biases-were-deleted", det + ",\"problem\":\"" + jesc(a.stale_inactive) + "\"}");
+  if (!a.stale_inactive.empty()) {
+    // two different histories lead here: plain deletion of the biases of a variable, or a script that switched off a variable
+    // which a bias still uses ("set active 0" is accepted with one reference left) and later deleted a bias
+    bool toggled = false;
+    for (int op : ops) if (op == ACT_OFF) toggled = true;
+    r.violation(toggled ? "C20:variable-left-inactive:after-the-script-switched-off-a-variable-in-use" : "C20:variable-left-inactive-after-its-biases-were-deleted",
+                det + ",\"problem\":\"" + jesc(a.stale_inactive) + "\"}");
+  }
   if (!a.stale_active.empty()) r.violation(P + "script-value-is-not-the-value-of-the-current-coordinates", det + ",\"problem\":\"" + jesc(a.stale_active) + "\"}");
   if (a.steprc[0] || a.steprc[1]) r.count("sequences_whose_final_steps_report_an_error");
   if ((fnv(ops_json(ops)) % 997) == 5) r.sample(det + "}", 3);
